@@ -101,16 +101,17 @@ func recoverAndCheck(cfg string, img *vstor.Stor, issued []model.Batch, must []b
 		}
 		// fully usable: write, compact, reopen
 		if !w.Failed() {
+			w.Step = 500 // values distinct from everything the history wrote
 			// (the first write after a recovery must itself survive a plain reopen: it is in the journal the
 			// recovery created)
 			for _, op := range []string{"put:a", "re", "w:+b,-a", "cr", "re", "del:b", "q"} {
 				w.Apply(op)
+				if !w.Failed() && (op == "re" || op == "q") {
+					w.CheckDB()
+				}
 				if w.Failed() {
 					break
 				}
-			}
-			if !w.Failed() {
-				w.CheckDB()
 			}
 		}
 		viol = append(viol, w.Viol...)
